@@ -127,6 +127,7 @@ type verifyOpts struct {
 func VerifyFunc(P *Program, fn *ssa.Function, c *Contract, cf *ContractFile, inst string, vo verifyOpts) *FuncResult {
 	e := newEngine(P, fn, c, cf)
 	e.declareGhosts()
+	e.knownActive = vo.knownActive
 	e.instTag = inst
 	name := pkgShort(c.Pkg) + "." + c.Key
 	if inst != "" {
@@ -327,6 +328,25 @@ func VerifyFunc(P *Program, fn *ssa.Function, c *Contract, cf *ContractFile, ins
 			e.obNamed(name+".locks.balanced", "locks", fmt.Sprintf("locks held at return equal those at entry (entry %v, return %v)", keysOf(exp), keysOf(rst.locks)), rst.cond, goal, fn.Pos())
 		}
 	}
+	// every lock this function takes itself must be declared with `acquires`, so that callers know it runs a critical section
+	{
+		declared := map[string]bool{}
+		dctx := f.evalCtx(st, nil)
+		dctx.at = fn.Blocks[0]
+		for _, a := range c.Acquires {
+			if key, ok := e.lockKeyFromText(dctx, a); ok {
+				declared[key] = true
+			} else {
+				declared["class:"+a] = true
+			}
+		}
+		for _, key := range keysOf(e.acquired) {
+			class := key[strings.Index(key, "|")+1:]
+			if !declared[key] && !declared["class:"+class] {
+				e.bindError(name+".acquires", fmt.Errorf("the function locks %s but its contract has no `acquires` clause for it", class))
+			}
+		}
+	}
 	// stale site clauses
 	for _, sc := range c.Sites {
 		if (sc.Kind == "assert" || sc.Kind == "ghost") && e.siteHit[sc.Site] == 0 {
@@ -424,6 +444,7 @@ func (e *Engine) frameGoals(f *Frame, c *Contract, entry, rst *State, fn *ssa.Fu
 		}
 		ctx := f.evalCtx(entry, nil)
 		ctx.at = fn.Blocks[0]
+		ctx.onlyParams = true // modifies entries are about the values at entry
 		x, err := parseExpr(m)
 		if err != nil {
 			e.bindError(name+".modifies", err)
@@ -500,19 +521,16 @@ func (e *Engine) frameGoals(f *Frame, c *Contract, entry, rst *State, fn *ssa.Fu
 		if h1 == h0 {
 			continue
 		}
-		q := "fr.a"
-		var excl []string
-		excl = append(excl, "(< 0 "+q+")", "(<= "+q+" wm0)")
-		var inner []string
+		// every cell (array a, index i) of a pre-existing array that lies in no declared window is unchanged
+		qa, qi := "fr.a", "fr.i"
+		var wins []string
 		for _, el := range elems {
 			if e.sortOf(el.rootT) == srt {
-				excl = append(excl, sNot(sEq(q, el.base)))
-				inner = append(inner, fmt.Sprintf("(forall ((fr.i Int)) (=> (or (< fr.i (s.off %s)) (>= fr.i (+ (s.off %s) (s.len %s)))) (= (select (select %s %s) fr.i) (select (select %s %s) fr.i))))",
-					el.slice, el.slice, el.slice, h1, el.base, h0, el.base))
+				wins = append(wins, fmt.Sprintf("(and (= %s %s) (<= (s.off %s) %s) (< %s (+ (s.off %s) (s.len %s))))", qa, el.base, el.slice, qi, qi, el.slice, el.slice))
 			}
 		}
-		goal := fmt.Sprintf("(forall ((%s Int)) (=> %s (= (select %s %s) (select %s %s))))", q, sAnd(excl...), h1, q, h0, q)
-		goal = sAnd(append([]string{goal}, inner...)...)
+		goal := fmt.Sprintf("(forall ((%s Int) (%s Int)) (! (=> (and (< 0 %s) (<= %s wm0) (not %s)) (= (select (select %s %s) %s) (select (select %s %s) %s))) :pattern ((select (select %s %s) %s))))",
+			qa, qi, qa, qa, sOr(wins...), h1, qa, qi, h0, qa, qi, h1, qa, qi)
 		out = append(out, [3]string{fmt.Sprintf("%s.frame.elems.%s", name, mangle(srt)), "only slice elements named in modifies are written (arrays of " + srt + ")", goal})
 	}
 	for _, k := range sortedKeys(rst.mapD) {
